@@ -98,6 +98,19 @@ func protoBases() []NamedBase {
 			ctor("rectangle3D", "Rectangle3D", 3, nil, fld("r", tRef("rectangle", true, aN(7)))),
 			fn("getRectangle", 4, tRef("Rectangle3D", false), fld("id", tInt())),
 		}},
+		// implicitly tagged combinators of prototype.tl: service4.object (used bare only, here with a mask),
+		// service1.Value (union, boxed), integer (bare in benchObject), tasks.taskInfo-like holder, service1.get
+		{"proto/implicitTags", Schema{
+			ctor("object", "Object", 0, nil, fld("type", tInt()), fld("fields_mask", tNat()),
+				mfld("joint_id", tVec(tInt(), true), "fields_mask", 0)).implicit(),
+			ctor("valueNotFound", "Value", 0, nil).implicit(),
+			ctor("valueStr", "Value", 0, nil, fld("value", tStr()), fld("flags", tInt())).implicit(),
+			ctor("integer", "Integer", 0, nil, fld("value", tInt())).implicit(),
+			ctor("entry", "Entry", 1, nil, fld("object", tRef("Object", true)), fld("ys", tVec(tRef("Integer", true), true)),
+				fld("v", tRef("Value", false))),
+			fn("get", 0, tRef("Value", false), fld("key", tStr())).implicit(),
+			fn("getEntry", 2, tRef("Entry", false), fld("id", tInt())),
+		}},
 		// constants passed as masks, a nat that is an array size, boxed tuple (myBoxedTupleSlice, service3.Product 0)
 		{"proto/constants", Schema{
 			ctor("pattern", "Pattern", 1, []string{"fields_mask"},
